@@ -49,7 +49,7 @@ pub proof fn lemma_sp_facts(id: ArchId)
 //@ rewrite 1 `fn calling_convention(&self) -> CallingConvention;` => `fn calling_convention(&self) -> (r: CallingConvention) ensures cc_property(arch_cc(self.id()), r);` ## R-trait-contract: adds a contract to the method; the executable signature is unchanged
 //@ rewrite 1 `fn stack_pointer(&self) -> il::Scalar;` => `fn stack_pointer(&self) -> (r: il::Scalar) ensures r == arch_sp(self.id());` ## R-trait-contract: adds a contract to the method; the executable signature is unchanged
 //@ rewrite 1 `fn word_size(&self) -> usize;` => `fn word_size(&self) -> (r: usize) ensures r == arch_word(self.id());` ## R-trait-contract: adds a contract to the method; the executable signature is unchanged
-//@ rewrite 1 `fn box_clone(&self) -> Box<dyn Architecture>;` => `proof fn vf_box_clone_dropped(&self) {}` ## R-drop-member: the member `box_clone` is removed from the trait as seen by the verifier: Verus 0.2026.09.13 rejects a trait with a method whose signature mentions `dyn` of the trait itself ('cyclic self-reference in a definition'); its seven implementations (`Box::new(self.clone())`) are NOT under contract (listed in meta.json)
+//@ rewrite 1 `fn box_clone(&self) -> Box<dyn Architecture>;` => `proof fn vf_box_clone_dropped(tracked &self) {}` ## R-drop-member: the member `box_clone` is removed from the trait as seen by the verifier: Verus 0.2026.09.13 rejects a trait with a method whose signature mentions `dyn` of the trait itself ('cyclic self-reference in a definition'); its seven implementations (`Box::new(self.clone())`) are NOT under contract (listed in meta.json)
 //@ end
 
 // ---------------------------------------------------------------------------------------------
